@@ -537,6 +537,25 @@ class BuiltinMixin:
         r = SV(TList(recv.t), z3.If(p >= 0, two, one))
         return r
 
+    def sm_partition(self, recv, args, kwargs, st, node):
+        """s.partition(c) for a 1-char constant c -> (head, sep, tail); (s, "", "") when c does not occur."""
+        (sep,) = args
+        if sep.const is None or len(sep.const.v) != 1:
+            raise EngineError("partition with non-constant / multi-char separator")
+        c = ord(sep.const.v) if isinstance(sep.const.v, str) else sep.const.v[0]
+        s = recv.z
+        n = z3.Length(s)
+        p = z3.IndexOf(s, z3.Unit(z3.IntVal(c)), z3.IntVal(0))
+        st.assume(z3.And(p >= -1, p < n))
+        st.assume(z3.Implies(p >= 0, s[p] == c))
+        i = z3.Int(sym.fresh_name("i"))
+        st.assume(z3.ForAll([i], z3.Implies(z3.And(i >= 0, i < z3.If(p >= 0, p, n)), s[i] != c)))
+        head = z3.If(p >= 0, z3.SubSeq(s, 0, p), s)
+        tail = z3.If(p >= 0, z3.SubSeq(s, p + 1, n - p - 1), z3.Empty(sym.IntSeq))
+        sepz = z3.If(p >= 0, z3.Unit(z3.IntVal(c)), z3.Empty(sym.IntSeq))
+        st.assume(z3.Implies(p >= 0, z3.And(z3.Length(z3.SubSeq(s, 0, p)) == p, z3.Length(z3.SubSeq(s, p + 1, n - p - 1)) == n - p - 1)))
+        return sym.tup_mk([SV(recv.t, head), SV(recv.t, sepz), SV(recv.t, tail)])
+
     def split_ws(self, recv, maxsplit, st, node):
         """str.split() / split(None, k): uninterpreted result with the facts callers rely on."""
         t = TList(recv.t)
